@@ -1,4 +1,5 @@
 """C03 — every calculated property is a pure function of the current (species, x0, T, P)."""
+import copy
 import json
 import random
 import re
@@ -103,7 +104,8 @@ def execute(setname, sets, history, nmix, T0=10000.0, P0=101325.0, ctl=None):
             except Exception as e:  # noqa: BLE001
                 out, err = None, f"{type(e).__name__}: {e}"
             after = (m.T, m.P, tuple(m.x0), m.species)
-            fresh = mpc.mixture.LTE(species, list(m.x0[:-1]), m.T, m.P, *CONTROL_SETS[ctl[w]])
+            # "freshly constructed": equal species data in new objects, so nothing can be shared with the history
+            fresh = mpc.mixture.LTE(copy.deepcopy(species), list(m.x0[:-1]), m.T, m.P, *CONTROL_SETS[ctl[w]])
             try:
                 ref = call(fresh, meth, dt)
                 rerr = None
@@ -170,7 +172,10 @@ def check(run):
             # the same inputs visited by two mixtures one after the other
             T, P = rng.choice(TGRID), rng.choice(PGRID)
             meth = (rng.choice(METHODS), True)
-            h += [(0, "T", T), (0, "P", P), (1, "T", T), (1, "P", P), (0, "C", meth), (1, "C", meth)]
+            k = rng.randrange(3)
+            h += [(0, "T", T), (0, "P", P), (0, "X", k), (1, "T", T), (1, "P", P), (1, "X", k), (0, "C", meth), (1, "C", meth)]
+            if ctl[0] == ctl[1]:
+                ctl[1] = (ctl[0] + rng.randint(1, 4)) % 5
         hists.append((rng.choice(["oxy", "oxy", "co"]), nmix, h, ctl))
     results = []
     for setname, nmix, h, ctl in hists:
